@@ -200,7 +200,7 @@ def dump_real(sd):
     for i in range(len(sd)):
         d = sd.node_data(i)
         flags = "".join("0" if d[k] is None else "1" for k in ("attractor_candidates", "attractor_seeds", "attractor_sets"))
-        ns.append(f"{sp2s(d['space'], nm)},{d['depth']},{int(bool(d['expanded']))},{int(bool(d['skipped']))},{flags},{0 if d['percolated_petri_net'] is None else 1}")
+        ns.append(f"{sp2s(d['space'], nm)},{d['depth']},{int(bool(d['expanded']))},{int(bool(d['skipped']))},{flags}")
     es = []
     for (a, b, data) in sd.dag.edges(data=True):
         ms = ";".join(sp2s(m, nm) for m in data["all_motifs"])
@@ -208,18 +208,15 @@ def dump_real(sd):
         es.append(f"{a}>{b}:{ms}")
     return "nodes=" + "|".join(ns) + " edges=" + ("|".join(es) if es else "-")
 
-def canon_dump(s, ignore_pn=False, ignore_attr=False):
+def canon_dump(s, ignore_attr=False, **_kw):
     """order-insensitive view of a dump line (edge list order is a dict-iteration artefact)"""
     nodes, edges = s.split(" edges=")
     nodes = nodes[len("nodes="):].split("|")
-    if ignore_pn or ignore_attr:
+    if ignore_attr:
         nn = []
         for x in nodes:
             f = x.split(",")
-            if ignore_attr:
-                f[4] = "---"
-            if ignore_pn:
-                f[5] = "-"
+            f[4] = "---"
             nn.append(",".join(f))
         nodes = nn
     edges = [] if edges == "-" else sorted(edges.split("|"))
